@@ -129,6 +129,25 @@ type memoryDatabase struct {
 	lock     sync.RWMutex // lock of create metric store
 }
 
+// lastCreatedTime keeps the created time of the latest memory database.
+var lastCreatedTime atomic.Int64
+
+// newCreatedTime returns the created time(ns) of a new memory database, unique under current process.
+// The created time is the key of memory database's time range under the time series index which is shared
+// by all families of the shard, and the cached clock only moves every few milliseconds.
+func newCreatedTime() int64 {
+	for {
+		now := fasttime.UnixNano()
+		last := lastCreatedTime.Load()
+		if now <= last {
+			now = last + 1
+		}
+		if lastCreatedTime.CompareAndSwap(last, now) {
+			return now
+		}
+	}
+}
+
 // NewMemoryDatabase returns a new MemoryDatabase.
 func NewMemoryDatabase(cfg *MemoryDatabaseCfg) (MemoryDatabase, error) {
 	db := &memoryDatabase{
@@ -137,7 +156,7 @@ func NewMemoryDatabase(cfg *MemoryDatabaseCfg) (MemoryDatabase, error) {
 		familyTime:    cfg.FamilyTime,
 		name:          cfg.Name,
 		timeSeriesIDs: roaring.New(),
-		createdTime:   fasttime.UnixNano(),
+		createdTime:   newCreatedTime(),
 		statistics:    metrics.NewMemDBStatistics(cfg.Name),
 	}
 	return db, nil
